@@ -2,7 +2,6 @@ package sym
 
 import (
 	"go/types"
-	"strings"
 
 	"golang.org/x/tools/go/ssa"
 
@@ -17,20 +16,34 @@ type timerState struct {
 }
 
 func registerEnvStubs() {
+	// sync.Mutex / sync.RWMutex, sequential model: a writer flag and per-goroutine reader counts. A goroutine that
+	// has to wait is parked (and run when the mutex is released) if waiting is the first thing it does; on the
+	// harness's own path a wait can never end and is a DEADLOCK. A read lock taken by a goroutine that already
+	// holds one is reported as well: a Lock call arriving from another goroutine in between blocks both forever
+	// (the sync documentation prohibits recursive read locking for this reason).
+	blocked := func(x *Exec, c *Cell, what string) {
+		if x.inGo > 0 {
+			panic(blockedOnLock{mu: c, steps: x.steps}) // a goroutine waits; it is run when the mutex is released
+		}
+		x.goPanic("DEADLOCK: "+what+" of a mutex already held on this path ("+c.Name+")", nil)
+	}
+	wake := func(x *Exec, c *Cell) {
+		// goroutines parked on this mutex get it now, one after the other
+		for len(x.parked[c]) > 0 && x.mutexHeld[c] == 0 && x.readers(c) == 0 {
+			g := x.parked[c][0]
+			x.parked[c] = x.parked[c][1:]
+			x.runGoroutine(g)
+		}
+	}
 	lock := func(x *Exec, f *Closure, a []Value, cc *ssa.CallCommon) Value {
 		c := a[0].(Ptr).C
-		if x.mutexHeld[c] != 0 {
-			if x.inGo > 0 {
-				panic(blockedOnLock{mu: c, steps: x.steps}) // a goroutine waits; it is run when the mutex is released
-			}
-			x.goPanic("DEADLOCK: Lock of a mutex already held on this path ("+c.Name+")", nil)
+		if x.mutexHeld[c] != 0 || x.readers(c) > 0 {
+			blocked(x, c, "Lock")
 		}
 		x.mutexHeld[c] = 1
 		x.lockEvents = append(x.lockEvents, "lock")
 		x.raceAcquire(c)
-		if !strings.HasSuffix(f.Fn.Name(), "RLock") {
-			x.raceAcquire(rdKey{c})
-		}
+		x.raceAcquire(rdKey{c})
 		return nil
 	}
 	unlock := func(x *Exec, f *Closure, a []Value, cc *ssa.CallCommon) Value {
@@ -40,22 +53,51 @@ func registerEnvStubs() {
 		}
 		x.mutexHeld[c] = 0
 		x.lockEvents = append(x.lockEvents, "unlock")
-		if strings.HasSuffix(f.Fn.Name(), "RUnlock") {
-			x.raceRelease(rdKey{c}, true) // readers publish to the next writer only
-		} else {
-			x.raceRelease(c, false)
+		x.raceRelease(c, false)
+		wake(x, c)
+		return nil
+	}
+	rlock := func(x *Exec, f *Closure, a []Value, cc *ssa.CallCommon) Value {
+		c := a[0].(Ptr).C
+		if x.mutexHeld[c] != 0 {
+			blocked(x, c, "RLock")
 		}
-		// goroutines parked on this mutex get it now, one after the other
-		for len(x.parked[c]) > 0 && x.mutexHeld[c] == 0 {
-			g := x.parked[c][0]
-			x.parked[c] = x.parked[c][1:]
-			x.runGoroutine(g)
+		if x.rdHeld == nil {
+			x.rdHeld = map[*Cell]map[int]int{}
 		}
+		if x.rdHeld[c] == nil {
+			x.rdHeld[c] = map[int]int{}
+		}
+		if x.rdHeld[c][x.gid] > 0 {
+			x.goPanic("DEADLOCK: recursive RLock of a sync.RWMutex ("+c.Name+"): a Lock call arriving from another goroutine in between blocks both forever", nil)
+		}
+		x.rdHeld[c][x.gid]++
+		x.lockEvents = append(x.lockEvents, "lock")
+		x.raceAcquire(c)
+		return nil
+	}
+	runlock := func(x *Exec, f *Closure, a []Value, cc *ssa.CallCommon) Value {
+		c := a[0].(Ptr).C
+		if x.readers(c) == 0 {
+			x.goPanic("sync: RUnlock of unlocked RWMutex", nil)
+		}
+		g := x.gid
+		if x.rdHeld[c][g] == 0 {
+			for k, n := range x.rdHeld[c] { // released on behalf of another goroutine (allowed for RWMutex)
+				if n > 0 {
+					g = k
+				}
+			}
+		}
+		x.rdHeld[c][g]--
+		x.lockEvents = append(x.lockEvents, "unlock")
+		x.raceRelease(rdKey{c}, true) // readers publish to the next writer only
+		wake(x, c)
 		return nil
 	}
 	tryLock := func(x *Exec, f *Closure, a []Value, cc *ssa.CallCommon) Value {
 		c := a[0].(Ptr).C
-		if x.mutexHeld[c] != 0 {
+		if x.mutexHeld[c] != 0 || x.readers(c) > 0 {
 			return x.ctx.False()
 		}
 		x.mutexHeld[c] = 1
@@ -68,8 +110,8 @@ func registerEnvStubs() {
 		stubs[t+".Unlock"] = unlock
 		stubs[t+".TryLock"] = tryLock
 	}
-	stubs["(*sync.RWMutex).RLock"] = lock
-	stubs["(*sync.RWMutex).RUnlock"] = unlock
+	stubs["(*sync.RWMutex).RLock"] = rlock
+	stubs["(*sync.RWMutex).RUnlock"] = runlock
 
 	// time: opaque instants; time.After returns a timer channel whose readiness is decided by the harness environment
 	// time.Now: a virtual clock that only moves when the harness calls vndAdvanceTime (150 ms per call, like its
@@ -210,4 +252,13 @@ func registerEnvStubs() {
 	stubs["time.After"] = func(x *Exec, f *Closure, a []Value, cc *ssa.CallCommon) Value {
 		return newTimer(x)
 	}
+}
+
+// readers: how many read locks of the RWMutex in cell c are held.
+func (x *Exec) readers(c *Cell) int {
+	n := 0
+	for _, k := range x.rdHeld[c] {
+		n += k
+	}
+	return n
 }
